@@ -40,7 +40,9 @@ func Run(r *rep.Report, tier string) {
 	for si, sp := range specs {
 		si, sp := si, sp
 		var mu sync.Mutex
-		hangCount := map[string]int{}
+		hangCount := map[string]int{}        // (provenance of A, operator) -> workers killed
+		suspect := map[string]bool{}         // operators that have killed a worker in this kind
+		pairLock := map[string]*sync.Mutex{} // probes of a suspect pair are serialised so one death is enough
 		st := seq.Explore(seq.Spec{
 			Name:     sp.name,
 			NumOps:   len(ops),
@@ -49,10 +51,23 @@ func Run(r *rep.Report, tier string) {
 			Deadline: deadline,
 			Workers:  workers,
 			Run: func(h []int) seq.Result {
-				pk := ""
+				pk, opname := "", "init"
 				if len(h) > 0 {
-					last := ops[h[len(h)-1]]
-					pk = provenance(sp, h[:len(h)-1]) + "/" + last.name
+					opname, _, _ = strings.Cut(ops[h[len(h)-1]].name, "(")
+					pk = provenance(sp, h[:len(h)-1]) + "/" + opname
+					mu.Lock()
+					var pl *sync.Mutex
+					if suspect[opname] {
+						if pl = pairLock[pk]; pl == nil {
+							pl = &sync.Mutex{}
+							pairLock[pk] = pl
+						}
+					}
+					mu.Unlock()
+					if pl != nil {
+						pl.Lock()
+						defer pl.Unlock()
+					}
 					mu.Lock()
 					n := hangCount[pk]
 					mu.Unlock()
@@ -70,6 +85,7 @@ func Run(r *rep.Report, tier string) {
 					hangs.Add(1)
 					mu.Lock()
 					hangCount[pk]++
+					suspect[opname] = true
 					mu.Unlock()
 					opsig := "init"
 					if len(h) > 0 {
